@@ -73,6 +73,29 @@ func Run(dir string, seed uint64, n int) error {
 		}
 		sample("queue", res.sample)
 	}
+	addW := func(res wResult, origin string) {
+		if !res.wf && scopeErr == nil {
+			scopeErr = fmt.Errorf("generator bug: world history with a cyclic queue forest: %s", res.label)
+		}
+		out.Add(res.term, res.label)
+		out.Count("kind:world-history")
+		out.Count("origin:" + origin)
+		out.Count(fmt.Sprintf("world:height=%d", res.height))
+		out.Count(fmt.Sprintf("world:max-full-passes-until-quiet=%d", res.maxFull))
+		for _, t := range res.tags {
+			out.Count("world:step " + t)
+		}
+		out.CountN("world:steps", res.steps)
+		out.CountN("world:reconciles", res.events)
+		out.CountN("world:full-passes", res.fullPasses)
+		out.CountN("world:steps-not-settled-within-height+3-full-passes", res.unsettled)
+		out.CountN("world:podgroup-reconcile-errors", res.errors)
+		out.CountN("world:mutating-calls-that-changed-nothing", res.emptyPatches)
+		if res.steps >= 2 {
+			out.NonTrivial(res.label)
+		}
+		sample("world", res.sample)
+	}
 	addOp := func(res opResult, origin string) {
 		out.Add(res.term, res.label)
 		out.Count("kind:operator-deploy")
@@ -155,6 +178,81 @@ func Run(dir string, seed uint64, n int) error {
 	selfParent := forest{Queues: []queueIn{{Name: "q01", Parent: "q01"}}, PGs: []pgIn{{Name: "a", Queue: "q01", Status: rstatus{vec{1000}, nil, vec{1000}}}}}
 	addQ(qd.runForest(root.Fork(1000011), selfParent, "random", 0, "malformed corpus self-parent"), "malformed")
 
+	// world histories (both controllers on one store), fixed part: preemptibility flips of a pod group whose
+	// pods keep running, with NO other change, by spec edit, by priority class name and by the class's value,
+	// in both directions; changes of exactly one aggregate; each followed by reconciles of the pod group, its
+	// queue and all ancestors bottom-up / top-down / in random order
+	runningBig := func(name string) podIn {
+		return podIn{Name: name, Phase: "Running", CPU: 2000, GPU: 1, Node: "node-a"}
+	}
+	type wplan []func(st *wState) wStepPlan
+	tagged := func(tag string, f func(st *wState) wChange) func(st *wState) wStepPlan {
+		return func(st *wState) wStepPlan {
+			ch := f(st)
+			ch.what += " (" + tag + ")"
+			return wStepPlan{[]wChange{ch}, tag}
+		}
+	}
+	deptTeam := func(spec, class string) wState {
+		return wState{Classes: append([]classIn{}, allClasses...),
+			Queues: []wQueue{{Name: "q01"}, {Name: "q02", Parent: "q01"}},
+			Groups: []wGroup{{Name: "train", Queue: "q02", Spec: spec, Class: class, Pods: []podIn{runningBig("train-p0")}}}}
+	}
+	worldCorpus := []struct {
+		name string
+		st   wState
+		plan wplan
+	}{
+		{"corpus flip-by-spec dept->team", deptTeam(np, "train"), wplan{
+			tagged("only-allocatedNonPreemptible:flip-by-spec nonpreemptible->preemptible", func(st *wState) wChange { return chSetSpec(st, 0, p) }),
+			tagged("pods-added-or-deleted", func(st *wState) wChange {
+				return chSetPods(st, 0, []podIn{runningBig("train-p0"), runningBig("train-p1")}, "second pod started")
+			}),
+			tagged("only-allocatedNonPreemptible:flip-by-spec preemptible->nonpreemptible", func(st *wState) wChange { return chSetSpec(st, 0, np) })}},
+		{"corpus flip-by-class-name dept->team", deptTeam("", "inference"), wplan{
+			tagged("only-allocatedNonPreemptible:flip-by-class-name nonpreemptible->preemptible", func(st *wState) wChange { return chSetClass(st, 0, "train") }),
+			tagged("only-allocatedNonPreemptible:flip-by-class-name preemptible->nonpreemptible", func(st *wState) wChange { return chSetClass(st, 0, "build") })}},
+		{"corpus flip-by-class-value dept->team", deptTeam("", "build"), wplan{
+			tagged("only-allocatedNonPreemptible:flip-by-class-value nonpreemptible->preemptible", func(st *wState) wChange { return chClassValue(st, "build", 99, 0) }),
+			tagged("only-allocatedNonPreemptible:flip-by-class-value preemptible->nonpreemptible", func(st *wState) wChange { return chClassValue(st, "build", 100, 0) })}},
+		{"corpus one-aggregate-at-a-time", wState{Classes: append([]classIn{}, allClasses...),
+			Queues: []wQueue{{Name: "q01"}, {Name: "q02", Parent: "q01"}, {Name: "q03", Parent: "q02"}, {Name: "q04", Parent: "q01"}},
+			Groups: []wGroup{{Name: "a", Queue: "q03", Spec: p, Class: "train", Pods: []podIn{runningBig("a-p0"), {Name: "a-p1", Phase: "Pending", CPU: 500}}},
+				{Name: "b", Queue: "q04", Spec: np, Class: "train", Pods: []podIn{runningBig("b-p0")}}}}, wplan{
+			tagged("only-requested:pending-pod-added", func(st *wState) wChange {
+				return chSetPods(st, 0, append(append([]podIn{}, st.Groups[0].Pods...), podIn{Name: "a-p2", Phase: "Pending", CPU: 250, GPU: 1}), "add unscheduled Pending pod a-p2")
+			}),
+			tagged("only-allocated:pending-pod-scheduled", func(st *wState) wChange {
+				pods := append([]podIn{}, st.Groups[0].Pods...)
+				pods[1].Conds = [][2]string{{"PodScheduled", "True"}}
+				return chSetPods(st, 0, pods, "a-p1 PodScheduled=True")
+			}),
+			tagged("only-allocatedNonPreemptible:flip-by-spec preemptible->nonpreemptible", func(st *wState) wChange { return chSetSpec(st, 0, np) }),
+			tagged("only-childQueues:empty-queue-created", func(st *wState) wChange { return chAddQueue("q05", "q03") }),
+			tagged("only-childQueues:empty-queue-reparented", func(st *wState) wChange { return chSetParent(st, "q05", "q04") }),
+			tagged("only-childQueues:empty-queue-deleted", func(st *wState) wChange { return chDelQueue(st, "q05") }),
+			func(st *wState) wStepPlan {
+				return wStepPlan{[]wChange{chSetSpec(st, 0, p), chSetSpec(st, 1, p)}, "two-flips"}
+			}}},
+	}
+	wseed := uint64(1000100)
+	for _, c := range worldCorpus {
+		for _, order := range []string{"bottom-up", "top-down", ""} {
+			plan := c.plan
+			wseed++
+			name := c.name
+			if order != "" {
+				name += " order=" + order
+			}
+			res, err := runWorld(scheme, qd, root.Fork(wseed), c.st.clone(), len(plan)+1,
+				func(step int, st *wState) wStepPlan { return plan[step-1](st) }, order, name)
+			if err != nil {
+				return err
+			}
+			addW(res, "corpus")
+		}
+	}
+
 	// operator: every real operand alone and all together, default configuration
 	for _, set := range realOperandSets() {
 		res, err := runRealOperands(opScheme, set, kaiVariants[0], nil)
@@ -203,7 +301,11 @@ func Run(dir string, seed uint64, n int) error {
 		if malformed {
 			origin = "malformed"
 		}
-		switch i % 10 {
+		kind := i % 10
+		if i%20 == 17 { // every other 7 is a static queue forest, the rest world histories
+			kind = 5
+		}
+		switch kind {
 		case 0, 1, 2, 3, 4: // pod-group history
 			st := genState(r, malformed)
 			init := rstatus{}
@@ -220,7 +322,16 @@ func Run(dir string, seed uint64, n int) error {
 				return err
 			}
 			addPG(res, origin)
-		case 5, 6, 7, 8: // queue forest
+		case 7, 8: // world history: both controllers on one store
+			st := genWorld(r)
+			next := 10
+			res, err := runWorld(scheme, qd, r, st, r.Range(3, 5),
+				func(step int, st *wState) wStepPlan { return genWorldStep(r, st, &next) }, "", fmt.Sprintf("structured #%d", i))
+			if err != nil {
+				return err
+			}
+			addW(res, "structured")
+		case 5, 6: // queue forest
 			f := genForest(r, malformed)
 			order := u.Pick(r, []string{"parent-first", "parent-first", "child-first", "random"})
 			delta := u.Pick(r, []int{0, 0, 0, 1, -1})
@@ -264,6 +375,6 @@ func Run(dir string, seed uint64, n int) error {
 	if scopeErr != nil {
 		return scopeErr
 	}
-	out.Stats["rule"] = "cases drawn from one splitmix64 stream after a fixed corpus: 50% pod-group histories (2-5 steps, each step one change followed by two reconciles; phases Pending/Running/Succeeded/Failed/Unknown, scheduled conditions, whole/fractional/memory GPU requests, DRA claims, preemptibility via spec and via priority class), 40% queue forests (1-8 queues, <= 4 levels, pod groups with arbitrary stored status, arbitrary initial queue status; passes parent-first / child-first / random, height-1 .. height+1 passes, then one check pass), 10% operator deploys x3 (synthetic table-driven operand, or the real operands under 6 configurations incl. configuration changes); every 7th case from the malformed stream (unparsable annotations, missing claims/nodes, unknown preemptibility strings, cyclic / self-parent / dangling queue parents, pod groups without queue; queue forests with a parent cycle are not trees and occur ONLY under origin \"malformed\", where the monitor is silent by wf_forest). The pod-group and queue write observable is \"the stored object changed\" (object rendered without resourceVersion before/after every mutating call), not \"a call was issued\": empty status patches are counted in the stats only. Non-trivial = a pod-group history with pods and >= 2 steps, a forest with >= 2 levels, or any operator case; distinct by full label."
+	out.Stats["rule"] = "cases drawn from one splitmix64 stream after a fixed corpus: 50% pod-group histories (2-5 steps, each step one change followed by two reconciles; phases Pending/Running/Succeeded/Failed/Unknown, scheduled conditions, whole/fractional/memory GPU requests, DRA claims, preemptibility via spec and via priority class), 25% static queue forests (1-8 queues, <= 4 levels, pod groups with arbitrary stored status, arbitrary initial queue status; passes parent-first / child-first / random, height-1 .. height+1 passes, then one check pass), 15% WORLD HISTORIES: priority classes, pods, 1-4 pod groups and a forest of 1-6 queues (<= 4 levels, sometimes stale stored statuses) on ONE store, driven through the real PodGroupReconciler AND the real QueueReconciler for 3-5 steps; a step is one change drawn from: preemptibility flip of a pod group whose pods keep running with NO other change (by spec.preemptibility edit, by another priorityClassName, by the priority class's value crossing 100; both directions), a change that alters exactly one aggregate (Requested only: unscheduled Pending pod added; Allocated only: Pending pod of a preemptible group gets PodScheduled=True; ChildQueues only: empty queue created / deleted / re-parented; AllocatedNonPreemptible only: the flips), two opposite flips at once, pod phase change, pods added / deleted / all deleted, pod group moved to another queue or to none, non-empty queue re-parented, no change; after the change 0-2 targeted passes (the touched pod group, its queue and all ancestors bottom-up / top-down / random / queues before the pod group, with immediate repeats) and then full passes (every pod group and every queue; random / bottom-up / top-down / pod groups then parent-first / queues then pod groups, with repeats and reconciles of unknown names) until a full pass writes nothing (cap height+3); the fixed corpus holds the dept->team flip histories by spec, by class name and by class value and a one-aggregate-at-a-time history, each in three orders (bottom-up, top-down, mixed random); 10% operator deploys x3 (synthetic table-driven operand, or the real operands under 6 configurations incl. configuration changes); every 7th pod-group / forest / operator case from the malformed stream (unparsable annotations, missing claims/nodes, unknown preemptibility strings, cyclic / self-parent / dangling queue parents, pod groups without queue; queue forests with a parent cycle are not trees and occur ONLY under origin \"malformed\", where the monitor is silent by wf_forest). The pod-group and queue write observable is \"a stored object changed\" (objects rendered without resourceVersion before/after every mutating call), not \"a call was issued\": empty status patches are counted in the stats only. Non-trivial = a pod-group history with pods and >= 2 steps, a forest with >= 2 levels, a world history with >= 2 steps, or any operator case; distinct by full label."
 	return out.Flush()
 }
